@@ -160,6 +160,8 @@ def gen_converter(draw):
                 [["cur", "USD" if base != "USD" else "EUR"], ["dec", "1"], ["int", "0"]],       # zero multiple
                 [["cur", "USD" if base != "USD" else "EUR"], ["str", "abc"], ["int", "1"]],
                 [["code", "QQQ"], ["dec", "1"], ["int", "1"]],           # unknown code
+                [["code", draw(st.sampled_from(_UNREG))], ["dec", "1"], ["int", "1"]],   # valid ISO code, not registered
+                [["code", draw(st.sampled_from(_UNREG))], ["dec", "0"], ["int", "1"]],   # ... and an invalid amount
                 [["cur", "USD" if base != "USD" else "EUR"], ["dec", "1"], ["frac", "1/3"]],
             ]))
             specs.insert(pos, badspec)
@@ -170,11 +172,15 @@ def gen_converter(draw):
     return {"k": "converter", "kind": kind, "base": base, "dflt": draw(c11._date()), "steps": steps, "probes": probes}
 
 
+# ISO codes that no part of this check registers: an ExchangeRate accepts code strings of *registered* currencies only
+_UNREG = ["SEK", "NOK", "DKK", "PLN", "CZK", "HUF", "INR", "BRL", "MXN", "ZAR"]
+
+
 def _mk_specs_raw(specs):
     out = []
     for cs, term, mult in specs:
         c = Money.register_currency(cs[1]) if cs[0] == "cur" else cs[1]
-        if cs[0] == "code" and cs[1] in iso.TABLE:
+        if cs[0] == "code" and cs[1] in iso.TABLE and cs[1] not in _UNREG:
             Money.register_currency(cs[1])       # an ISO code string refers to a registered currency
         t = term[1] if term[0] == "str" else mknum(term)
         out.append((c, t, mknum(mult)))
@@ -182,7 +188,7 @@ def _mk_specs_raw(specs):
 
 
 def _probe(conv, probes):
-    out = []
+    out = [("registered", tuple(c for c in _UNREG if c in Money), len(Money.units()))]
     for a, b, d in probes:
         ca, cb = Money.register_currency(a), Money.register_currency(b)
         dd = None if d is None else datetime.date.fromisoformat(d)
@@ -195,6 +201,8 @@ def _probe(conv, probes):
 
 
 def _converter_case(case, ctx):
+    for code in c11.CUR:
+        Money.register_currency(code)          # the harness's own registrations happen before any observation
     base = Money.register_currency(case["base"])
     dflt = datetime.date.fromisoformat(case["dflt"])
     real = MoneyConverter(base, get_dflt_effective_date=lambda: dflt)
